@@ -27,7 +27,28 @@ func MutateHCL(t *rapid.T, text string) (string, []string) {
 	n := rapid.IntRange(1, 4).Draw(t, "nmut")
 	var kinds []string
 	for i := 0; i < n; i++ {
-		switch rapid.IntRange(0, 9).Draw(t, "mutkind") {
+		switch rapid.IntRange(0, 12).Draw(t, "mutkind") {
+		case 10, 11, 12:
+			// the smallest syntax error: one separator inside a (possibly deeply nested)
+			// construct is blanked out; parsers recover from these locally, which is where
+			// diagnostics get lost
+			idx := []int{}
+			for j, c := range b {
+				if c == ',' || c == ':' || c == '?' || (c == '=' && j+1 < len(b) && b[j+1] == '>') {
+					idx = append(idx, j)
+				}
+			}
+			if len(idx) > 0 {
+				pos := idx[rapid.IntRange(0, len(idx)-1).Draw(t, "which")]
+				if b[pos] == '=' {
+					b[pos+1] = ' '
+				}
+				b[pos] = ' '
+				kinds = append(kinds, "drop_separator")
+				if rapid.Bool().Draw(t, "only_this") {
+					return string(b), kinds
+				}
+			}
 		case 0, 1, 2, 3:
 			pos := rapid.IntRange(0, len(b)).Draw(t, "pos")
 			ins := rapid.SampledFrom(HCLInserts).Draw(t, "ins")
